@@ -525,6 +525,78 @@ pub fn late_globals_programs(out: &mut Vec<(String, Program)>) {
     }
 }
 
+/// assignment targets that are chains of fields, held across a call made by the right-hand side that re-points
+/// links of that chain: `root.q.x = swap()` where swap() assigns a new blob to `root.q`, to `root`, to both, ...
+/// Every subset of the links (and of rebinding the root variable) x chain depth 1-3 x plain / compound assignment
+/// x root a global or a captured local x the call bare or inside an arithmetic expression. Aliases taken before the
+/// assignment show afterwards which object was written. The language does not fix whether the target is read before
+/// or after the right-hand side, but it is read wholly before or wholly after it (see RefSylt's order masks).
+pub fn target_chain_programs(out: &mut Vec<(String, Program)>) {
+    let lname = |l: usize| format!("L{}", l);
+    fn make(level: usize, seed: i64) -> Expr {
+        if level == 0 {
+            Expr::Blob("L0".into(), vec![("x".into(), int(seed))])
+        } else {
+            Expr::Blob(format!("L{}", level), vec![("q".into(), make(level - 1, seed))])
+        }
+    }
+    let hops = |root: &str, n: usize| -> Expr {
+        let mut e = var(root);
+        for _ in 0..n {
+            e = field(e, "q");
+        }
+        e
+    };
+    for depth in 1..=3usize {
+        let top_level = depth - 1;
+        for mask in 0..(1u32 << depth) {
+            for compound in [false, true] {
+                for global_root in [false, true] {
+                    for arith in [false, true] {
+                        let mut tops = vec![ext_print()];
+                        for l in 0..=top_level {
+                            let fields = if l == 0 { vec![("x".to_string(), Ty::Int)] } else { vec![("q".to_string(), Ty::User(lname(l - 1)))] };
+                            tops.push(Top::Blob { name: lname(l), fields });
+                        }
+                        // swap: deepest link first, the root variable last
+                        let mut swap_body = Vec::new();
+                        for i in (0..top_level).rev() {
+                            if mask & (1 << i) != 0 {
+                                swap_body.push(Stmt::Assign { target: field(hops("root", i), "q"), op: None, value: make(top_level - 1 - i, 100 * (i as i64 + 1)) });
+                            }
+                        }
+                        if mask & (1 << top_level) != 0 {
+                            swap_body.push(assign("root", make(top_level, 900)));
+                        }
+                        swap_body.push(Stmt::Ret(Some(int(7))));
+                        let swap = lam(vec![], RetAnn::Ty(Ty::Int), swap_body);
+                        let mut body = Vec::new();
+                        if global_root {
+                            tops.push(Top::Def { name: "root".into(), mutable: true, ty: None, value: make(top_level, 1) });
+                            tops.push(Top::Def { name: "swap".into(), mutable: false, ty: None, value: swap });
+                        } else {
+                            body.push(def("root", make(top_level, 1)));
+                            body.push(cdef("swap", swap));
+                        }
+                        for l in 0..=top_level {
+                            body.push(cdef(&format!("a{}", l), hops("root", l)));
+                        }
+                        let rhs = if arith { add(int(10), callv("swap", vec![])) } else { callv("swap", vec![]) };
+                        body.push(Stmt::Assign { target: field(hops("root", top_level), "x"), op: if compound { Some(BinOp::Add) } else { None }, value: rhs });
+                        // what every alias reaches now, and what the root reaches now
+                        for l in 0..=top_level {
+                            body.push(print_of(field(hops(&format!("a{}", l), top_level - l), "x")));
+                        }
+                        body.push(print_of(field(hops("root", top_level), "x")));
+                        tops.push(start_fn(body));
+                        out.push((format!("blobs-target-chain:depth{}:links{:b}:{}:{}:{}", depth, mask, if compound { "compound" } else { "plain" }, if global_root { "global" } else { "captured-local" }, if arith { "in-arithmetic" } else { "bare-call" }), Program { tops }));
+                    }
+                }
+            }
+        }
+    }
+}
+
 pub fn all_programs(thorough: bool) -> Vec<(String, Program)> {
     all_programs_len(if thorough { 4 } else { 3 })
 }
@@ -573,5 +645,6 @@ pub fn all_programs_len(max_len: usize) -> Vec<(String, Program)> {
     }
     recursion_programs(&mut out);
     late_globals_programs(&mut out);
+    target_chain_programs(&mut out);
     out
 }
